@@ -70,3 +70,24 @@ def writers_of(model, item_path, crates=None):
             if e.kind == "write" and e.what == item_path:
                 out.append((p, e))
     return out
+
+
+def resolve_to_callers(model, path, origins, depth=3):
+    """Replace bare-parameter origins of function `path` by the origins of the operands passed at its direct call sites,
+    recursively (up to `depth` frames). Origins that are not bare parameters, and parameters of functions nobody in the
+    workspace calls (entry points), are kept."""
+    out = set()
+    for o in origins:
+        done = False
+        if o.kind == "param" and depth > 0 and (o.b in (None, path)):
+            callers = [(cp, cb) for (cp, cb, ck) in model.callers().get(path, []) if ck == "call"]
+            for cp, cb in callers:
+                cv = model.view(cp)
+                ct = cv.blocks[cb]["t"]
+                if o.a - 1 < len(ct["args"]):
+                    sub = cv.origins_of_operand(ct["args"][o.a - 1], proj=tuple(o.proj), at=cv.at_term(cb))
+                    out |= resolve_to_callers(model, cp, sub, depth - 1)
+                    done = True
+        if not done:
+            out.add(o)
+    return out
